@@ -340,7 +340,8 @@ FAULTS = ["undefined-head", "undefined-type", "undefined-member", "dup-field", "
           "dup-param-field", "dup-abbr", "dup-import", "two-scopes-type", "two-scopes-prelude",
           "two-scopes-alias-field", "abbr-outside-nested", "abbr-outside-member", "abbr-outside-static",
           "member-of-array", "member-of-scalar", "member-of-virtual", "field-attr-other-field",
-          "outer-field-from-nested", "param-member", "module-as-value", "module-attr-undefined"]
+          "outer-field-from-nested", "param-member", "module-as-value", "module-attr-undefined",
+          "inline-type-then-bare-name"]
 
 
 class Gen:
@@ -583,6 +584,50 @@ class Gen:
                 if c:
                     m.attr_refs.append(self.new_ref("const", c, m))
         self.apply_reference_faults()
+        self.add_repeats()
+
+    def scope_names(self, t):
+        """every name the scope of t (and, for an anonymous bits, its parent's scope) is asked to hold"""
+        names = [e.name for e in self.oracle.entries(t)]
+        if t.anon:
+            names += [e.name for e in self.oracle.entries(t.lex_parent)]
+        return names
+
+    def add_typed(self, t, names, front=False, typ=None):
+        """a physical field whose type is spelled `names`, first or last in t"""
+        fd = Fd(self.fresh(["ra", "rb", "rc", "rd", "re", "rg"], self.scope_names(t)), t)
+        fd.kind, fd.typ, fd.typ_resolved = "typed", typ, None
+        fd.tref = self.new_ref("type", list(names), t)
+        if front:
+            t.fields.insert(0, fd)
+        else:
+            t.fields.append(fd)
+        return fd
+
+    def add_repeats(self):
+        """The verdict on a reference must not depend on what was looked up before it: repeat
+        references (same spelling, same scope) before and after the existing ones -- in particular
+        the bare name of an inline type after (and before) the inline field, whose own synthetic
+        is_local_name reference is the one lookup that is resolved by precedence."""
+        r = self.r
+        pool = [rf for rf in self.refs if not rf.site.is_mod and rf.site.kind != "enum" and rf.attr_field is None
+                and not any("#" in n for n in rf.names) and rf.site.mod() is self.main]
+        if not pool:
+            return
+        picks = []
+        faulty = [rf for rf in pool if rf.fault or rf.local]
+        for _ in range(r.choice([0, 1, 1, 2, 3])):
+            picks.append(r.choice(faulty if faulty and r.random() < 0.5 else pool))
+        for rf in picks:
+            t = rf.site
+            for front in ([True, False] if r.random() < 0.4 else [r.random() < 0.5]):
+                if rf.kind == "type":
+                    self.add_typed(t, rf.names, front=front)
+                elif not t.anon:
+                    fd, _ = self.add_virtual(t, rf.kind, rf.names, "$present(%s)" if rf.kind == "field" and r.random() < 0.5 else "%s")
+                    if front:
+                        t.fields.remove(fd)
+                        t.fields.insert(0, fd)
 
     def field_refs(self, t, fd):
         r = self.r
@@ -705,7 +750,7 @@ class Gen:
                 and len([f for f in t.fields if f.kind != "anon"]) >= need_fields]
 
     def add_virtual(self, t, ref_kind, names, expr_fmt="%s"):
-        name = self.fresh(["va", "vb", "vc", "vd"], [f.name for f in t.fields if f.kind != "anon"] + [p[0] for p in t.params])
+        name = self.fresh(["va", "vb", "vc", "vd", "ve", "vf"], self.scope_names(t))
         fd = Fd(name, t)
         fd.typ_resolved = None
         rf = self.new_ref(ref_kind, names, t)
@@ -889,6 +934,45 @@ class Gen:
             x = r.choice(c)
             o = r.choice([y for y in named if y is not x])
             x.attr = self.new_ref("field", [o.name], t, attr_field=x)
+        elif f == "inline-type-then-bare-name":
+            # an inline enum whose type name is also a module-level type, then the bare name written out
+            # in the same scope: the synthetic is_local_name reference binds to the inner type, the
+            # written ones are ambiguous whatever was looked up before them
+            host = t
+            site = host
+            if host.kind == "struct" and not host.inline and r.random() < 0.35:
+                # ... inside an anonymous bits of the struct
+                afd = [x for x in host.fields if x.kind == "anon"]
+                if afd:
+                    site = r.choice(afd).typ
+            taken = self.scope_names(site) + self.scope_names(host)
+            free = [n for n in ["ma", "mb", "mc", "md"] if n not in taken
+                    and camel(n) not in [u.name for u in host.subtypes()] + [u.name for u in self.main.types]]
+            if not free:
+                return
+            n = r.choice(free)
+            fd = Fd(n, site)
+            fd.kind = "inline"
+            e = Ty("enum", camel(n), site, inline=True)
+            e.decl_parent = host
+            e.values = [("VA", 0, None)]
+            e.index = len(self.all_types)
+            self.all_types.append(e)
+            host.hoisted.append(e)
+            fd.typ = e
+            fd.tref = self.new_ref("type", [e.name], site, local=True)
+            site.fields.append(fd)
+            outer = Ty("enum", camel(n), self.main)
+            outer.decl_parent = self.main
+            outer.values = [("VB", 0, None)]
+            outer.index = len(self.all_types)
+            self.all_types.append(outer)
+            self.main.types.append(outer)
+            self.add_typed(site, [e.name], front=False, typ=e).tref.fault = "inline-type-then-bare-name"
+            if r.random() < 0.3:
+                self.add_typed(site, [e.name], front=True, typ=e)
+            if r.random() < 0.5 and site is not host:
+                self.add_typed(host, [e.name], front=False, typ=e)
         elif f == "module-as-value":
             if not self.main.imports:
                 return
